@@ -1,6 +1,6 @@
 (* Props/C17.v -- SIGINT yields KeyboardInterrupt after clean shutdown, or correct completion. *)
 From Coq Require Import List Arith Lia Bool String.
-From Mpv Require Import GenObserve GenAsync GenStruct OrderHist Apply Fail FailProofs Signals SignalProofs.
+From Mpv Require Import GenObserve GenAsync GenStruct OrderHist Apply Fail FailProofs Signals SignalProofs Routes RouteProofs.
 Import ListNotations.
 
 (* (1) a signal is either delivered at once (no manager active), or deferred and delivered exactly once when the
@@ -40,3 +40,25 @@ Theorem C17_source_facts :
   delayed_saves_and_restores = true /\ disable_saves_and_restores = true.
 Proof. exact (conj workers_ignore_spec (conj map_terminates_spec (conj terminate_spec (conj delayed_spec disable_spec)))). Qed.
 Print Assumptions C17_source_facts.
+
+(* the try structure of imap_unordered (generated: every statement with the constructs around it, every try block
+   with its handlers) under Python's propagation rule: a KeyboardInterrupt raised at ANY statement inside the outer
+   try -- every point of the call at which a worker or helper thread of this call can exist -- or inside anything
+   such a statement calls, runs a handler that shuts the pool down (terminate / _handle_exception, unconditionally)
+   before the exception leaves the call; workers are started and joined only from such statements.  The positions
+   outside (prologue, the outer handler itself, the finally clean-up) are listed in the evidence file. *)
+Theorem C17_every_interrupt_point_shuts_down :
+  forall p, In p imap_unordered_positions -> in_outer_try p = true -> shut_down_before_leaving p = true.
+Proof. exact every_interrupt_point_shuts_down. Qed.
+Print Assumptions C17_every_interrupt_point_shuts_down.
+
+Theorem C17_workers_started_only_under_protection :
+  forall p, In p imap_unordered_positions -> starts_workers p = true -> in_outer_try p = true.
+Proof. exact workers_started_only_under_protection. Qed.
+Print Assumptions C17_workers_started_only_under_protection.
+
+Theorem C17_route_facts :
+  every_protected_position_shuts_down = true /\ workers_only_touched_under_protection = true /\
+  handle_exception_shuts_down = true.
+Proof. exact (conj protected_spec (conj touched_spec handle_exception_spec)). Qed.
+Print Assumptions C17_route_facts.
